@@ -67,7 +67,8 @@ def run(ctx):
         jobs.append(('distinct(count)', 'dedup distinctcount %s %s %s %s' % (kt, bt, proto.enc('n'), tt),
                      lambda T=T, key=key, bs=bs: etl.distinct(T, key, count='n', buffersize=bs), base, T, key, rect))
         if key is not None:
-            missing = rng.choice([None, None, 1, 'a'])
+            # equal to cells of the pool without being the same object (a float outside any cache, a freshly built tuple)
+            missing = gen.fresh(rng.choice([None, None, 1, 'a', 2.5, 1.0, (1, 'a')]))
             mode = rng.choice(['all', 'all', 'include', 'exclude'])
             names = rng.sample(hdr, rng.choice([1, min(2, len(hdr))])) if mode != 'all' else None
             kw = {'missing': missing}
@@ -75,8 +76,10 @@ def run(ctx):
                 kw['include'] = names if rng.random() < 0.5 or len(names) > 1 else names[0]
             if mode == 'exclude':
                 kw['exclude'] = names if rng.random() < 0.5 or len(names) > 1 else names[0]
+            cthunk = lambda T=T, key=key, bs=bs, kw=kw: etl.conflicts(T, key, buffersize=bs, **kw)
+            cthunk.kw = kw
             jobs.append(('conflicts', 'dedup conflicts %s %s %s %s %s %s' % (kt, bt, proto.enc(missing), mode, util.enc_key(names), tt),
-                         lambda T=T, key=key, bs=bs, kw=kw: etl.conflicts(T, key, buffersize=bs, **kw), dict(base, **{k: repr(v) for k, v in kw.items()}), T, key, rect))
+                         cthunk, dict(base, **{k: repr(v) for k, v in kw.items()}), T, key, rect))
             jobs.append(('isunique', 'isunique %s %s' % (kt, tt), None, base, T, key, rect))
     model = lean.run_driver([j[1] for j in jobs])
     for (op, line, thunk, base, T, key, rect), spec in zip(jobs, model):
@@ -135,6 +138,23 @@ def run(ctx):
                 why = 'not exactly one row per distinct key'
             elif op == 'distinct(count)' and sum(r[-1] for r in out) != len(T) - 1:
                 why = 'count column does not add up to nrows'
+        elif op == 'conflicts':
+            # every row reported belongs to a key group in which it disagrees with another row on a field under consideration
+            # where neither value is `missing`; a group without such a pair contributes nothing
+            gk = keyfun(T, key)
+            kw = thunk.kw
+            hdr_ = list(T[0])
+            fields = [j for j, f in enumerate(hdr_)
+                      if (kw.get('include') is None or f in (kw['include'] if isinstance(kw['include'], (list, tuple)) else [kw['include']]))
+                      and (kw.get('exclude') is None or f not in (kw['exclude'] if isinstance(kw['exclude'], (list, tuple)) else [kw['exclude']]))]
+            miss = kw.get('missing')
+            rows = [tuple(r) for r in T[1:]]
+            def disagree(r, s_):
+                return any(not (r[j] == miss or s_[j] == miss) and r[j] != s_[j] for j in fields)
+            out = [tuple(r) for r in list(thunk())[1:]]
+            bad = [r for r in out if not any(gk(s_) == gk(r) and disagree(r, s_) for s_ in rows)]
+            if bad:
+                why = 'reports %r, which disagrees with no row of its key group on a non-missing value' % (bad[0],)
         elif op == 'isunique':
             gk = keyfun(T, key)
             ks = [gk(r) for r in T[1:]]
